@@ -1160,7 +1160,12 @@ static int seq_child(SeqA const &A, std::string const &prelude, std::string cons
       std::string la, lb, what = "differs";
       while (std::getline(a, la) && std::getline(b, lb))
         if (la != lb) { what = la.substr(0, la.find(' ')); break; }
-      if (what.rfind("state", 0) == 0) os << "VERDICT survivor-state-changed " << what << "\n";
+      // a previously defined object switched off by the rejected configuration
+      size_t nR = 0, nT = 0;
+      for (size_t p = 0; (p = R.find("(inactive)", p)) != std::string::npos; p++) nR++;
+      for (size_t p = 0; (p = T.find("(inactive)", p)) != std::string::npos; p++) nT++;
+      if (nT > nR) os << "VERDICT survivor-deactivated " << what << "\n";
+      else if (what.rfind("state", 0) == 0) os << "VERDICT survivor-state-changed " << what << "\n";
       else os << "VERDICT survivor-behaviour-changed " << what << "\n";
       os << "R " << jesc(R.substr(0, 1500)) << "\nT " << jesc(T.substr(0, 1500)) << "\n";
     }
@@ -1219,6 +1224,8 @@ static void group_findings(Result &total)
     std::string label = raw.substr(0, a), kind = raw.substr(a + 4, b - a - 4), func = raw.substr(b + 4);
     std::string key;
     if (func.size()) key = kind + "@" + func;
+    else if (kind == "seq:survivor-deactivated")
+      key = kind + "@";  // one mechanism whatever the rejected object
     else if (kind.rfind("seq:", 0) == 0)
       key = kind + "@" + label.substr(0, label.find(':'));  // per object type
     else if (kind == "timeout" || kind == "rss-cap" || kind == "error-without-message" || kind.rfind("abort:", 0) == 0)
@@ -1449,17 +1456,40 @@ int main(int argc, char **argv)
       std::string const ctxl = ctx_label(BASES[c.base], m.ctx);
       bool take = false;
       if (thorough) {
-        // once per (chain of object types, keys present in the block, keyword, value class)
+        std::string kv = m.kw + "=" + m.vclass;
+        bool more = std::find(VCLASS_MORE.begin(), VCLASS_MORE.end(), m.vclass) != VCLASS_MORE.end();
+        bool blocky_absent = m.kid < 0 && BLOCK_KEYS.count(m.kw);
+        bool group = ctxl == "atomGroup" || ctxl == "fittingGroup";
+        static const std::set<std::string> group_classes = {"0", "-1", "1000000", "nan", "empty", "noexist",
+                                                            "absent", "long", "short"};
         std::string sig;
-        Node *n = &t;
-        for (int i : m.path) { n = &n->kids[i]; sig += lower(n->key) + "/"; }
-        std::set<std::string> pk;
-        for (auto const &k : n->kids) pk.insert(lower(k.key) + (k.block ? "{}" : ""));
-        for (auto const &k : pk) sig += k + ",";
-        // module and colvar keywords also once per set of bias types they act on
-        if (ctxl == "module" || ctxl == "colvar")
-          for (auto const &k : t.kids) if (k.block && lower(k.key) != "colvar") sig += "+" + lower(k.key);
-        take = seen.insert(sig + "|" + m.kw + "=" + m.vclass).second;
+        if (more || blocky_absent) {
+          // the additional value classes of this tier and component-type keywords: once per object type
+          sig = ctxl;
+        } else if (group) {
+          // atom groups: once per chain of object types (colvar/component/group) for the main classes
+          if (group_classes.count(m.vclass) || m.vclass.rfind("range:", 0) == 0) {
+            Node *n = &t;
+            for (size_t d = 0; d < m.path.size(); d++) {
+              n = &n->kids[m.path[d]];
+              sig += (d + 1 == m.path.size() ? ctxl : lower(n->key)) + "/";
+            }
+          } else sig = ctxl;
+        } else {
+          // once per (chain of object types, keys present in the block, keyword, value class)
+          Node *n = &t;
+          for (int i : m.path) { n = &n->kids[i]; sig += lower(n->key) + "/"; }
+          std::set<std::string> pk;
+          for (auto const &k : n->kids) pk.insert(lower(k.key) + (k.block ? "{}" : ""));
+          for (auto const &k : pk) sig += k + ",";
+          // module and colvar keywords also once per set of bias types they act on
+          if (ctxl == "module" || ctxl == "colvar") {
+            std::set<std::string> bset;
+            for (auto const &k : t.kids) if (k.block && lower(k.key) != "colvar") bset.insert(lower(k.key));
+            for (auto const &k : bset) sig += "+" + k;
+          }
+        }
+        take = seen.insert(sig + "|" + kv).second;
       } else {
         // quick: once per (object type, keyword, value class), in the first configuration that has it ...
         std::string kv = m.kw + "=" + m.vclass;
@@ -1514,6 +1544,12 @@ int main(int argc, char **argv)
         Case const &c = cs[i];
         std::string conf = case_config(c);
         reset_workdir(wd);
+        if (getenv("C10_FORK_PROBE") && i % 50 == 0) {
+          Outcome op = run_child([]() { return 0; }, 5, 1000);
+          r.count("fork_probe_us", (long) (op.secs * 1e6));
+          r.count("fork_probes");
+          r.count("worker_rss_mb", rss_mb(getpid()));
+        }
         if (i % 2000 == 0)
           fprintf(stderr, "  %s: %zu/%zu (%.0fs)\n", phase.c_str(), i, cs.size(), now() - t_start);
         Outcome o = run_child([&]() { return child_body(conf, true); }, T_CASE, RSS_CAP_MB);
@@ -1575,6 +1611,28 @@ int main(int argc, char **argv)
         Outcome o2 = run_child([&]() { return child_body(conf, false); }, o.kind == "timeout" ? T_RETRY : T_CASE * 2,
                                RSS_CAP_MB);
         if (o2.kind == o.kind && o2.func == o.func) confirmed[okey]++;
+        if (o2.kind == "timeout") {
+          // the legitimately large value 10^6 may simply take long (e.g. a 10^7-bin grid written out): it is a
+          // hang only if it does not end with ten times the limit either (thorough tier; not judged in quick)
+          bool large_only = true;
+          for (auto const &m : c.muts)
+            if (m.vclass != "1000000" && m.vclass != "-1000000") large_only = false;
+          if (large_only) {
+            if (!thorough) {
+              r.count("slow_with_large_value_not_judged_in_quick");
+              r.notes.push_back("slow with the large value, not judged in the quick tier: " + case_id(c));
+              continue;
+            }
+            reset_workdir(wd);
+            Outcome o3 = run_child([&]() { return child_body(conf, false); }, 10 * T_RETRY, RSS_CAP_MB);
+            if (o3.kind == "ok") {
+              r.count("slow_with_large_value_completed");
+              r.notes.push_back("slow with the large value but completed in " + std::to_string((int) o3.secs) + " s: " + case_id(c));
+              continue;
+            }
+            o2 = o3;
+          }
+        }
         if (o2.kind == "ok") {
           r.count("abnormal_not_reproduced");
           r.notes.push_back("not reproduced on replay (" + o.kind + "): " + case_id(c));
@@ -1615,6 +1673,12 @@ int main(int argc, char **argv)
   }
   bool exhaustive = true;
   fprintf(stderr, "bases: %zu, phase-1 cases: %zu (setup %.1fs)\n", BASES.size(), cases.size(), now() - t_start);
+  if (getenv("C10_COUNT_ONLY")) {
+    std::map<std::string, long> per;
+    for (auto const &c : cases) per[ctx_label(BASES[c.base], c.muts[0].ctx)]++;
+    for (auto const &kv : per) fprintf(stderr, "  %-30s %ld\n", kv.first.c_str(), kv.second);
+    return 0;
+  }
   if (getenv("C10_LIMIT")) {
     size_t lim = strtoul(getenv("C10_LIMIT"), NULL, 10), stride = std::max<size_t>(1, cases.size() / std::max<size_t>(1, lim));
     std::vector<Case> k;
